@@ -2,11 +2,16 @@ package simrt
 
 import (
 	"cmp"
+	"runtime"
 	"slices"
 	"sort"
 	"strings"
 	"sync"
+	"sync/atomic"
 )
+
+// curTaskNoLockFree reports whether the caller is a free-running goroutine (no scheduler task).
+func curTaskNoLockFree() bool { return taskFor() == nil }
 
 // lockCore is the shared implementation of Mutex and RWMutex.
 //
@@ -246,6 +251,12 @@ func (l *lockCore) lock(kind string) {
 	}
 }
 
+// FreeYieldOnUnlock (free mode, race tier): a goroutine that has just released a lock gives
+// up the processor. Always legal for a real scheduler, and it widens the window between an
+// Unlock and the unprotected accesses that follow it -- the place where "I still have the
+// data I read under the lock" races live -- so that the race detector gets to see them.
+var FreeYieldOnUnlock atomic.Bool
+
 func (l *lockCore) unlock() {
 	l.mu.Lock()
 	l.w = false
@@ -255,6 +266,9 @@ func (l *lockCore) unlock() {
 		l.cond.Broadcast()
 	}
 	l.mu.Unlock()
+	if FreeYieldOnUnlock.Load() && curTaskNoLockFree() {
+		runtime.Gosched()
+	}
 }
 
 func (l *lockCore) rlock() {
